@@ -240,6 +240,19 @@ func (g *G) expFor(t *Ty, srcs []src, depth int) *Exp {
 	if len(cands) > 0 && g.r.Intn(5) != 0 {
 		g.Stats["bind_ref"]++
 		c := hx.Pick(g.r, cands)
+		// half of the time insist on a reference that needs a conversion
+		// (struct narrowing, int -> float), if there is one
+		if g.r.Bool() {
+			var conv []src
+			for _, x := range cands {
+				if !x.T.Eq(t) {
+					conv = append(conv, x)
+				}
+			}
+			if len(conv) > 0 {
+				c = hx.Pick(g.r, conv)
+			}
+		}
 		if !c.T.Eq(t) {
 			g.Stats["bind_conversion"]++
 		}
@@ -310,6 +323,12 @@ func (g *G) sexpFor(t *Ty, args []Field, chunkOut *Field, depth int) *SExp {
 		case "arr":
 			e := &SExp{K: "arr"}
 			for i, n := 0, g.r.Intn(4); i < n; i++ {
+				if i == 0 && n > 1 && g.o.NullOuts && g.r.Intn(3) == 0 {
+					// a null first element followed by real ones
+					e.Items = append(e.Items, &SExp{K: "lit", Lit: hx.JNull()})
+					g.Stats["stage_array_leading_null"]++
+					continue
+				}
 				e.Items = append(e.Items, g.sexpFor(t.Elem, args, nil, depth+1))
 			}
 			return e
@@ -672,10 +691,59 @@ func (g *G) Gen(stageCmd string) *Program {
 		callables = append(callables, made...)
 	}
 	g.Stats[fmt.Sprintf("depth_%d", depth)]++
+	if g.r.Intn(3) == 0 {
+		g.addNarrowingPair(p, last)
+	}
 	top := &Call{ID: last.Name, Callee: last.Name}
 	for _, in := range last.Ins {
 		top.Binds = append(top.Binds, Bind{Param: in.Name, E: g.litExp(in.T, g.randValue(in.T, 0))})
 	}
 	p.Top = top
 	return p
+}
+
+// addNarrowingPair adds a producer of wide structs inside collections (with
+// null elements in every position, the first included) and a consumer that
+// declares the narrower struct, to the top pipeline: the consumer must receive
+// the values with the undeclared fields dropped, nulls kept.
+func (g *G) addNarrowingPair(p *Program, top *Pipeline) {
+	s1, s2 := TStruct("S1"), TStruct("S2")
+	wide := func() hx.JV {
+		return hx.JObj([]hx.JKV{{Key: "a", Val: hx.JInt(g.uniq())}, {Key: "b", Val: hx.JStr(fmt.Sprintf("s%d", g.uniq()))},
+			{Key: "c", Val: hx.JNum(bigInt(g.uniq()*10+5), -1)}, {Key: "xs", Val: hx.JArr([]hx.JV{hx.JInt(g.uniq())})}})
+	}
+	elems := func() []hx.JV {
+		n := 2 + g.r.Intn(3)
+		out := make([]hx.JV, n)
+		nullAt := g.r.Intn(n + 1) // n = no null
+		for i := range out {
+			if i == nullAt {
+				out[i] = hx.JNull()
+			} else {
+				out[i] = wide()
+			}
+		}
+		return out
+	}
+	arr := hx.JArr(elems())
+	var kvs []hx.JKV
+	for i, v := range elems() {
+		kvs = append(kvs, hx.JKV{Key: fmt.Sprintf("k%d", i), Val: v})
+	}
+	nested := hx.JArr([]hx.JV{hx.JArr(elems()), hx.JNull(), hx.JArr(elems())})
+	src := &Stage{Name: "NARROW_SRC",
+		Outs:     []Field{{"o", TArr(s2)}, {"m", TMap(s2)}, {"oo", TArr(TArr(s2))}},
+		MainOuts: map[string]*SExp{"o": {K: "lit", Lit: arr}, "m": {K: "lit", Lit: hx.JObj(kvs)}, "oo": {K: "lit", Lit: nested}},
+		ChunkOutsB: map[string]*SExp{}}
+	dst := &Stage{Name: "NARROW_DST",
+		Ins:      []Field{{"v", TArr(s1)}, {"m", TMap(s1)}, {"vv", TArr(TArr(s1))}},
+		Outs:     []Field{{"n", TInt}},
+		MainOuts: map[string]*SExp{"n": {K: "lit", Lit: hx.JInt(g.uniq())}}, ChunkOutsB: map[string]*SExp{}}
+	p.Stages = append(p.Stages, src, dst)
+	g.structs[src.Name], g.structs[dst.Name] = src.Outs, dst.Outs
+	ref := func(out string) *Exp { return &Exp{K: "ref", Src: "NARROW_SRC", Out: out} }
+	top.Calls = append(top.Calls,
+		&Call{ID: "NARROW_SRC", Callee: "NARROW_SRC"},
+		&Call{ID: "NARROW_DST", Callee: "NARROW_DST", Binds: []Bind{{Param: "v", E: ref("o")}, {Param: "m", E: ref("m")}, {Param: "vv", E: ref("oo")}}})
+	g.Stats["narrowing_pair"]++
 }
